@@ -23,6 +23,10 @@ from .common import Rng
 # member names: plain ones and some that need an alias on the wire
 PLAIN_NAMES = ["a", "b", "c", "d", "e", "f", "g", "h", "item", "count", "name", "value", "kind", "size", "tags", "meta"]
 ALIAS_NAMES = ["kebab-name", "class", "with space", "CamelCase", "x.y", "1st"]
+# (needs sanitising, plain identifier) pairs that collapse to ONE Python identifier
+COLLIDING = [("user-id", "user_id"), ("x.rate", "x_rate"), ("a b", "a_b"), ("order id", "order_id"), ("k-v", "k_v")]
+# integer bounds a double cannot represent / the edges of int64
+BIG_INTS = [2**53 + 1, 2**53 + 3, 2**63 - 1, -(2**53) - 1, 2**62 + 1]
 # names the field-name resolver changes: not an identifier, a keyword, (with --snake-case-field) camel case
 RENAMED_NAMES = ["first-name", "class", "order id", "1st", "x.y", "import", "OrderId", "CamelCase", "kebab-name"]
 DEF_NAMES = ["Pos", "Node", "Pet", "Cat", "Dog", "Color", "Amount", "Label", "Items", "Base", "Extra"]
@@ -62,6 +66,11 @@ class GenCfg:
     boost: str = ""  # "allOf" / "union" / "disc": make that construct frequent
     discriminators: bool = False  # OpenAPI `discriminator` on oneOf/anyOf of object definitions
     allof_own_required: bool = True  # allOf-level `required` naming members declared inline (incl. renamed ones)
+    colliding_names: bool = True  # two wire names that give the same Python identifier ("user-id", "user_id"), either order
+    big_bounds: bool = True  # integer bounds at the edges of int64 / beyond 2**53 (not representable as a double)
+    name_clashes: bool = True  # inline objects under the same property name in different parents (Address, Address1)
+    twins: bool = True  # definitions that differ in ONE detail (additionalProperties, a constant, a bound, required) or in nothing
+    chains: bool = True  # allOf inheritance chains of three or more classes, names in any alphabetical order
 
 
 def validator_for(doc: dict):
@@ -83,6 +92,17 @@ class DocGen:
     def integer(self, nullable: bool = False) -> dict:
         r = self.rng
         s: dict[str, Any] = {"type": ["integer", "null"] if nullable else "integer"}
+        if self.cfg.big_bounds and not self.cfg.draft4 and r.chance(1, 12):
+            # a bound that is exact as an integer and not as a double
+            b = r.choice(BIG_INTS)
+            # (exclusive bounds pass through `float` in JsonSchemaObject and lose the last digit: known finding D42;
+            # they are in the focused corpus, not in the seeded stream)
+            kw = r.choice(["minimum", "maximum"])
+            s[kw] = b
+            self.features.add("big_bound")
+            if nullable:
+                self.features.add("nullable")
+            return s
         lo = r.range(-5, 5)
         if r.chance(2, 3):
             self._lower(s, lo, integer=True)
@@ -219,7 +239,25 @@ class DocGen:
         names = r.sample(pool, n)
         if any(x in ALIAS_NAMES for x in names):
             self.features.add("alias")
+        if self.cfg.colliding_names and self.cfg.alias_names and r.chance(1, 10):
+            a, b = r.choice(COLLIDING)
+            pair = [a, b] if r.chance(1, 2) else [b, a]  # the one that needs sanitising first, or second
+            names = [x for x in names if x not in pair] + pair
+            self.features.add("colliding_names")
+            self.features.add("alias")
         props = {nm: self.member(depth + 1) for nm in names}
+        if self.cfg.name_clashes and depth <= 1 and r.chance(1, 10):
+            # the same inline property name under two parents: both objects want the class name `Address`
+            inner = r.choice(["address", "item", "detail"])
+            for i, parent in enumerate(r.sample(["home", "work", "billing", "shipping"], 2)):
+                sub = self.object_(depth + 2)
+                sub.pop("additionalProperties", None)
+                if i == r.below(2) or r.chance(1, 2):
+                    sub["additionalProperties"] = False
+                    self.features.add("ap_false")
+                props[parent] = {"type": "object", "properties": {inner: sub, "n": {"type": "integer"}}, "required": [inner]}
+                names = [*names, parent]
+            self.features.add("name_clash")
         s: dict[str, Any] = {"type": "object", "properties": props}
         req = [nm for nm in names if r.chance(1, 2)]
         if req:
@@ -303,7 +341,19 @@ class DocGen:
         r = self.rng
         key = r.choice(["anyOf", "oneOf"])
         self.features.add(key)
-        shape = r.below(5)
+        shape = r.below(6)
+        if shape == 5:
+            # nullable reference to a scalar definition that carries constraints
+            name = self.fresh_def(r.choice(["Amount", "Label", "Code", "Score"]))
+            self.defs[name] = self.integer() if r.chance(1, 2) else self.string()
+            self.features.add("scalar_def")
+            self.features.add("nullable_ref")
+            self.features.add("nullable")
+            self.features.add("ref")
+            alts = [{"$ref": f"#/definitions/{name}"}, {"type": "null"}]
+            if r.chance(1, 3):
+                alts.reverse()
+            return {key: alts}
         if shape == 4 and depth < self.cfg.max_depth:
             # tagged records: definitions with the same members, told apart only by a constant that is the
             # name of the record type (`kind: const "Cat"` in Cat, `kind: const "Dog"` in Dog)
@@ -411,6 +461,69 @@ class DocGen:
             alts.reverse()
         return {key: alts, "discriminator": d}
 
+    def twins(self, depth: int) -> dict:
+        """two definitions with the same members that differ in ONE detail — or in nothing (what a
+        de-duplicating pass must tell apart, resp. may merge)"""
+        r = self.rng
+        self.features.add("twins")
+        proto = self.object_(depth + 1)
+        proto.pop("additionalProperties", None)
+        n1, n2 = self.fresh_def(r.choice(["Cat", "Pos", "Item", "Node"])), self.fresh_def(r.choice(["Dog", "Point", "Entry", "Leaf"]))
+        a, b = copy.deepcopy(proto), copy.deepcopy(proto)
+        how = r.below(6)
+        if how == 0:
+            a["additionalProperties"], b["additionalProperties"] = False, True
+            self.features.add("twins_ap")
+            self.features.add("ap_false")
+        elif how == 1:
+            a["additionalProperties"] = False
+            self.features.add("twins_ap")
+            self.features.add("ap_false")
+        elif how == 2:
+            nm = next((k for k, v in b["properties"].items() if isinstance(v, dict) and v.get("type") == "integer" and "minimum" in v), None)
+            if nm:
+                b["properties"][nm]["minimum"] += 1
+                self.features.add("twins_bound")
+        elif how == 3:
+            names = list(b["properties"])
+            if names:
+                nm = r.choice(names)
+                req = list(b.get("required", []))
+                b["required"] = [x for x in req if x != nm] if nm in req else [*req, nm]
+                if not b["required"]:
+                    b.pop("required")
+                self.features.add("twins_required")
+        elif how == 4 and not self.cfg.draft4:
+            a["properties"] = {"kind": {"const": n1}, **a["properties"]}
+            b["properties"] = {"kind": {"const": n2}, **b["properties"]}
+            self.features.add("twins_const")
+        if r.chance(1, 2):
+            a, b = b, a  # which of the two comes first
+        self.defs[n1], self.defs[n2] = a, b
+        self.features.add("ref")
+        return {"type": "object", "properties": {"p": {"$ref": f"#/definitions/{n1}"}, "q": {"$ref": f"#/definitions/{n2}"}}, "required": ["p"]}
+
+    def chain(self, depth: int) -> dict:
+        """an allOf inheritance chain of three or four classes; the names are drawn without regard to
+        the direction of inheritance (a subclass may sort before its base, on several levels)"""
+        r = self.rng
+        self.features.add("allOf")
+        self.features.add("allOf_chain")
+        self.features.add("ref")
+        n = r.range(3, 4)
+        pool = r.choice([["Vehicle", "Motorised", "Car", "Cabriolet"], ["Zebra", "Mammal", "Animal", "Being"], ["Alpha", "Beta", "Gamma", "Delta"]])
+        if r.chance(1, 2):
+            pool = r.sample(pool, len(pool))
+        names = [self.fresh_def(b) for b in pool[:n]]
+        members = r.sample(PLAIN_NAMES, min(len(PLAIN_NAMES), 2 * n))
+        for i, nm in enumerate(names):
+            own = members[2 * i : 2 * i + 2]
+            body = {"type": "object", "properties": {m: self.scalar() for m in own}}
+            if r.chance(1, 2):
+                body["required"] = [own[0]]
+            self.defs[nm] = body if i == 0 else {"allOf": [{"$ref": f"#/definitions/{names[i - 1]}"}, body]}
+        return {"$ref": f"#/definitions/{names[-1]}"}
+
     def all_of(self, depth: int) -> dict:
         r = self.rng
         self.features.add("allOf")
@@ -470,7 +583,7 @@ class DocGen:
         deep = depth >= self.cfg.max_depth
         k = r.below(20)
         if self.cfg.boost == "allOf" and k < 4 and not deep and self.cfg.all_of:
-            return self.all_of(depth)
+            return self.chain(depth) if (self.cfg.chains and k == 0) else self.all_of(depth)
         if self.cfg.boost == "union" and k < 4 and not deep and self.cfg.unions:
             return self.union(depth)
         if self.cfg.discriminators and not deep and (k == 19 or (self.cfg.boost == "disc" and k < 5)):
@@ -500,11 +613,15 @@ class DocGen:
             return self.object_(depth + 1)
         if k == 14 and self.cfg.dict_values:
             return self.dict_(depth)
+        if k == 16 and self.cfg.twins and not deep and r.chance(1, 2):
+            return self.twins(depth)
         if k in (15, 16) and not deep:
             return self.ref(depth)
         if k == 17 and self.cfg.unions and not deep:
             return self.union(depth)
         if k == 18 and self.cfg.all_of and not deep:
+            if self.cfg.chains and r.chance(1, 4):
+                return self.chain(depth)
             return self.all_of(depth)
         return self.scalar()
 
@@ -964,6 +1081,9 @@ def _object_candidates(doc: dict, s: dict, depth: int, budget: int) -> list:
     out = [full]
     if minimal != full:
         out.append(minimal)
+    if s.get("additionalProperties") is True and "zz_extra" not in props:
+        # an open object that says so: a member it does not declare is part of a valid instance
+        out.append({**copy.deepcopy(full), "zz_extra": 1})
     # one member at a time through its other candidates (boundaries, nulls)
     for nm, vs in per.items():
         wide = has_discriminator(resolve(doc, props[nm])) if isinstance(props[nm], dict) else False
@@ -1064,6 +1184,10 @@ def _outside(s: dict, t: str) -> list[tuple[str, Any]]:
 
 def _cause(keyword: str, leaf: dict) -> str:
     ts = types_of(leaf)
+    if keyword in ("exclusiveMinimum", "exclusiveMaximum"):
+        v = leaf.get(keyword)
+        if isinstance(v, int) and not isinstance(v, bool) and abs(v) > 2**53:
+            return "big_exclusive_bound_through_float"
     if keyword in BOUND_KEYS and "integer" in ts:
         v = leaf.get(keyword)
         if keyword in ("minimum", "maximum") and isinstance(v, float) and v != int(v):
